@@ -311,6 +311,13 @@ class AbstractMessageLogEntry(abc.ABC):
         return False
 
     def _val_matches(self, operator, val, expected):
+        try:
+            return bool(self._apply_operator(operator, val, expected))
+        except (TypeError, AttributeError):
+            # The comparison can't be applied to a field of this type, so it's simply not a match
+            return False
+
+    def _apply_operator(self, operator, val, expected):
         if isinstance(expected, MetaFieldSpecifier):
             if len(expected) != 1:
                 raise ValueError(f"Can only support single-level Meta specifiers, not {expected!r}")
